@@ -22,7 +22,8 @@ claim('C01',
       'arbitrary quiescent watcher state (<=3 table entries alive/zombie/gone, any target) through three real periodic checks. Oracle on '
       'kernel ground truth: live = table = list reply = numprocesses, no zombie, fixpoint, post-restart generations. Configuration variants '
       '(graceful_timeout 0 with stubborn workers, send_hup, max_age, stop_children), a signal delivery that fails once with EPERM, and a higher-priority '
-      'neighbour watcher whose management raises on every check. CrossHair exhausts each shard.',
+      'neighbour watcher whose management raises on every check, a wrapped pid counter (later processes get smaller pids), max_age with a variance, '
+      'and the death of the NEWEST process (a worker of the new generation during its own roll-out). CrossHair exhausts each shard.',
       WORLD_NOTE + 'Bounds: numprocesses <= 3, K <= 2 from boot (longer histories only through the inductive step), respawn=True, no on_demand.')
 claim('C02',
       'Bounded symbolic execution of stop / restart / rm / quit (through the real Controller) with obedient, slow, too-slow and stubborn '
@@ -30,7 +31,7 @@ claim('C02',
       'of the stop sequence, followed by K<=2 follow-up events (check, incr, decr, set numprocesses, set of reload-class options, kill, signal) '
       'on the stopped watcher; variants graceful_timeout 0, max_age, an on_demand watcher stopped during its background start / after one worker died / in '
       'the pause before a second on_demand watcher, and a stop cut short by EPERM then requested again; c02_socket_event: a connection starts the waiting '
-      'on_demand watcher and never a watcher stopped by request. Oracle: no live or zombie child, status stopped, numprocesses 0, spawn log unchanged, start still starts.',
+      'on_demand watcher and never a watcher stopped by request; follow-ups that start / restart the OTHER watchers by pattern. Oracle: no live or zombie child, status stopped, numprocesses 0, spawn log unchanged, start still starts.',
       WORLD_NOTE + 'Runs in which the loop is blocked are skipped here (C05).')
 claim('C03',
       'Bounded symbolic execution of every termination cause (stop, restart, decr, reload, sequential reload, kill with and without signum / '
@@ -46,7 +47,8 @@ claim('C18',
       'non-signal names at all four entry points (to_signum, kill, signal, convert_option), exhausted; (ii) free short strings (bug hunting); '
       '(iii) a z3 regular-language inclusion lemma generated from to_signum\'s AST and validated against the real function: accepted == valid '
       'over ASCII strings of ANY length. Confinement of signal/kill requests to the named watcher\'s workers and their descendants: bounded '
-      'symbolic execution on the simulated kernel (c18_confinement).',
+      'symbolic execution on the simulated kernel (c18_confinement: pid / childpid / flags, six daemon states incl. a re-parented grandchild after a recursive signal, '
+      'stop_children with a child exiting mid-request, designations incl. the null signal 0).',
       WORLD_NOTE + 'ASCII designations only; numeric strings denote whatever int() yields.',
       technique=TECH + '; z3 regular-expression language inclusion (sequence theory) for designations')
 
@@ -55,7 +57,8 @@ claim('C04',
       'outcomes, an exec failure at the n-th attempt, obedient and stubborn workers and one death injected at any kernel call; plus an inductive '
       'step from an arbitrary quiescent watcher state for every event kind. Oracle on kernel ground truth: list / numprocesses / stats / status of '
       'each watcher = its live children, every pid ever spawned is tracked by exactly one watcher or gone, no zombie after one check, no transient '
-      'status; also evaluated at the first quiescent point before any periodic check.',
+      'status; also evaluated at the first quiescent point before any periodic check. Exec failures are ENOENT or a SubprocessError from the child\'s '
+      'pre-exec step; graceful_timeout 0 with stubborn workers; a daemon that blocks outside the listed finding\'s region is a violation.',
       WORLD_NOTE + 'One listed known finding (after_spawn veto leaves a not-yet-dead worker untracked).')
 claim('C05',
       'Bounded symbolic execution of pairs of events (exclusive operations, overlapping non-exclusive kill / signal requests, deaths, set of '
@@ -63,7 +66,7 @@ claim('C05',
       'inside a loop callback into measured blocking (50 ms bound, 5 s watchdog), all eight read-only commands are probed after every event and must be '
       'answered without the loop turning, and every accepted waiting request must be answered within the applicable grace and warm-up delays + 0.5 s.',
       WORLD_NOTE + 'Blocking = time.sleep, fork/exec time (1-5 ms per spawn), a read on an empty pipe, select without a finite timeout, or more than 3000 kernel '
-      'calls inside one loop callback. Also: captured output with a helper child holding the pipes; fork failing persistently with EAGAIN; an idle on_demand watcher. '
+      'calls inside one loop callback. Also: captured output with a helper child holding the pipes and exactly k x 1024 bytes pending; fork failing persistently with EAGAIN; an idle on_demand watcher. '
       'One listed known finding (reap_process busy-wait).')
 claim('C06',
       'Bounded symbolic execution of the real Controller and client library: structured byte strings (fringe bytes around 18 JSON cores), JSON '
@@ -78,12 +81,13 @@ claim('C09',
       'signal 1..64 with and without core flag, decoded by arithmetic W* macros proven equal to glibc\'s) placed at any kernel call; the captured '
       'event stream is replayed by an independent subscriber model and compared with kernel ground truth (one spawn per pid before any reap, at most '
       'one reap, believed-alive = alive, reap exit_code = status / -signal, start/stop vs status). Also deaths placed as events before a request, signal '
-      'requests (plain / recursive / children / one pid) to workers that survive them, and send_hup / max_age / on_demand configurations.',
+      'requests (plain / recursive / children / one pid) to workers that survive them, stubborn workers, and send_hup / max_age / on_demand configurations.',
       WORLD_NOTE, technique=TECH + '; z3 bit-vector lemma for the wait-status macros')
 claim('C10',
       'Bounded symbolic execution: a first state-changing request (20 kinds incl. the periodic check and non-graceful reloads) that succeeds, raises synchronously or fails '
       'asynchronously after suspension (unexpected exception in a later spawn); a second and third request after g loop turns. Refused requests must be '
-      'conflict errors, change nothing (snapshot + kernel logs) and leave the slot to its owner; a watcher in a transient status while the slot is free is a violation; '
+      'conflict errors, change nothing (snapshot + kernel logs) and leave the slot to its owner; a watcher in a transient status, or a waiting request still unanswered, while the slot is free is a violation; '
+      'c10_decorator: ONE inductive step of util.synchronized from an arbitrary slot state x callee x outcome (return, raise, BaseException, pending / done future); '
       'afterwards the slot is free and incr/decr are accepted. c10_reloadconfig: [circus] edits (in-process restart) failing at the n-th step.',
       WORLD_NOTE + 'Daemon self-restart excluded.')
 claim('C11',
@@ -97,7 +101,8 @@ claim('C12',
       'Bounded symbolic execution of reloadconfig sequences (K<=3 edits from an 18-edit menu incl. reverts, multi-watcher edits, an invalid definition after which '
       'the history continues with convergence alone claimed, and env values that '
       'parse_env_dict rewrites) on a real ini file: after every reload the daemon equals what get_config + Watcher.load_from_config yield for the file, '
-      'unchanged watchers keep their pids, numprocesses-only edits keep the surviving workers, an unchanged file causes no kernel activity, removed watchers leave nothing.',
+      'unchanged watchers keep their pids, numprocesses-only edits keep the surviving workers, an unchanged file causes no kernel activity, removed watchers leave nothing. '
+      'One watcher names its stream class explicitly (captured output on fake pipes).',
       WORLD_NOTE + 'The parser runs outside the tracer (concrete input); "fresh start" is judged against the parser, which is C16\'s subject.')
 claim('C13',
       'Differential bounded symbolic execution: argv / cwd / env / shell received by the simulated kernel vs an independent scanner of the documented '
@@ -109,7 +114,7 @@ claim('C14',
       'Bounded symbolic execution of the hook matrix: start with every assignment of {true,false,raise} x {ignore} to the four start-phase hooks '
       '(quick: at most two non-default; thorough: all 1296), taking effect from the first or second call; stop / restart / signal / kill (8 request forms) '
       'with every assignment to the stop and signal hooks; a second watcher whose hooks all carry the ignore flag; a false / raising before_signal on top of the '
-      'start matrix; obedient and stubborn workers. Oracle: documented gating rules, SIGKILL exemption, one '
+      'start matrix; exceptions with and without a message; obedient and stubborn workers. Oracle: documented gating rules, SIGKILL exemption, one '
       'hook_success/hook_failure event per call.',
       WORLD_NOTE + 'Shares the listed finding of C04 (vetoed worker that ignores the stop signal).')
 claim('C15',
@@ -121,7 +126,7 @@ claim('C19',
       'Bounded symbolic execution with UNBOUNDED symbolic integer priorities (ties included) for three watchers, numprocesses and warm-up menus, autostart '
       'flags, five triggers (daemon start, start/restart all, start/restart by glob), a slow after_spawn hook, periodic checks landing inside the sequence and an '
       'injected death of the oldest / newest worker inside the sequence; oracle on the kernel spawn log (priority blocks, no interleaving, per-watcher and global pacing also '
-      'for the replacement spawned in the aftermath, autostart).',
+      'for the replacement spawned in the aftermath, autostart); an after_spawn hook that rejects the first-started watcher\'s worker.',
       WORLD_NOTE)
 
 claim('C07',
@@ -129,21 +134,22 @@ claim('C07',
       'counted: eight watcher variants (reference in cmd / args / upper case / both syntaxes / two sockets / no use_sockets / stdin_socket only / reuseport) x '
       'K<=2 of 12 events (incl. `set cmd` to another socket) over worker generations; per spawn the argv given to Popen carries the fileno of THE daemon socket, the descriptor is reachable '
       '(close_fds False or listed in pass_fds, inheritable), sockets keep their fd, are bound and listening exactly once and never closed; watchers '
-      'without use_sockets get close_fds=True.',
+      'without use_sockets get close_fds=True. c07_reloadconfig: a daemon started from a real ini file keeps its sockets (objects, descriptors, one bind, no close) across '
+      'reloadconfig requests that leave the socket sections alone.',
       WORLD_NOTE + 'Trusted, not checked: that a real child finds the socket at that descriptor (POSIX close_fds / inheritable semantics).')
 claim('C08',
       'Daemon-side half only. Bounded symbolic execution of the REAL circusd.main() (argument parsing, pid file, Arbiter.load_from_config, the '
       'blocking loop.start() on the virtual-time loop, finally-block) with real managed sockets and pid file: trigger {quit, quit waiting, SIGTERM, '
       'SIGINT, SIGQUIT} delivered 1-3 times at any kernel call or right after a request (incr, restart, reload, kill, reloadconfig adding a socket / replacing a watcher, '
-      'a connection for an on_demand watcher, the death of one of its workers), obedient / stubborn workers: '
+      'a connection for an on_demand watcher, the death of one of its workers) or INSIDE select() of an idle daemon (also without periodic check), obedient / stubborn workers: '
       'exit 0, no child left, zmq and managed sockets closed, unix socket file and pid file gone, bounded time. Pid-file protocol over structured '
-      'contents x liveness {own, live, dead, EPERM}.',
+      'contents (also non-UTF-8 bytes) x liveness {own, live, dead, EPERM}.',
       WORLD_NOTE + 'Signals are delivered by calling the real handler; real signal delivery, the exit status seen by a parent and daemonize() are '
       'outside. One listed known finding (signal dropped while an operation is in flight).')
 claim('C16',
       'Differential check of config.get_config against a model-level reader over a generator of ini files (presence and every order of [env], '
       '[env:w1], [env:w*], [env:LIST] sections defining the same variable, recurring patterns, copy_env, references in five places and three syntaxes, '
-      '[env] values and include paths referring to os.environ, five groups of typed options, an included file). The solver enumerates the generator '
+      '[env] values and include paths referring to os.environ, empty values, the second watcher referring to a variable private to the first, five groups of typed options, an included file). The solver enumerates the generator '
       'exhaustively through selector variables; the parser itself runs on concrete text.',
       'Weakest use of the technique here (stated in DESIGN.md): symbolic text cannot pass configparser soundly under CrossHair, so nothing is ranged. '
       'Outside: ini syntax beyond the generated grammar.',
